@@ -173,6 +173,21 @@ func init() {
 					}
 				}
 			}
+			// long histories: the same failing input twelve times, then every short input (a counter that only grows)
+			for a := 0; a < nShort && a < 40; a++ {
+				if !fresh[a].failed && !strings.Contains(fresh[a].s, "E(") {
+					continue
+				}
+				var hist [][2]int
+				for k := 0; k < 12; k++ {
+					hist = append(hist, [2]int{a, 0})
+				}
+				for b := 0; b < nShort && b < 12; b++ {
+					run(hist, b)
+				}
+				run(hist, a)
+				st.add("long_histories", 1)
+			}
 			if triples {
 				small := len(inputs)
 				if small > 15 {
